@@ -216,6 +216,8 @@ def rule_c(ctx: Ctx, env: EnvA):
         why = f"done = {vg.show(done, 3)} reads the post-update '{key}'" if ok else (
             f"done is computed from the pre-update '{key}' (one step late)" if stale else f"done does not depend on the updated '{key}'")
         ctx.ob("C02.c", f"{name}._step:done<-{key}", ok, sl.where, why, construct=f"{sl.fi.qualname}:done:stale:{key}")
+        if key != "job_done":  # FJSP/JSSP: `done = job_done'.all(1)` is checked inside _transit_to_next_time (C07.d)
+            done_form(ctx, name, sl, done, key)
     elif name in T.DONE_RETURN:
         key = T.DONE_RETURN[name]
         cells = vg.cells_of(done)
@@ -225,6 +227,14 @@ def rule_c(ctx: Ctx, env: EnvA):
         ctx.ob("C02.c", f"{name}._step:done<-action,{key}", ok, sl.where,
                f"done = {vg.show(done, 3)}" + ("" if ok else f": must depend on the action and on the pre-increment counter '{key}'"),
                construct=f"{sl.fi.qualname}:done:return")
+        lv = nf.boolwalk(done, T.BOOL_CELLS)
+        at_depot = [l for l in lv if l.conj and l.cmp() is not None and l.cmp()[1] == "==0" and "action" in vg.cells_of(l.node)]
+        moved = [l for l in lv if l.conj and l.cmp() is not None and l.cmp()[1] == ">0" and l.cmp()[0].const_term() == 0 and
+                 [a.args[1] for a in l.cmp()[0].side_atoms(True) if a.op == "cell0"] == [key] and not l.cmp()[0].side_atoms(False)]
+        okf = len(lv) == 2 and len(at_depot) == 1 and len(moved) == 1
+        ctx.ob("C02.c", f"{name}._step:done-form", okf, sl.where,
+               f"done = (action == depot) & ({key} > 0)" if okf else f"done must be (action == depot) AND ({key} > 0); found literals {[str(l) for l in lv][:4]}",
+               construct=f"{sl.fi.qualname}:done:form")
     elif name in T.DONE_QUOTA:
         key, quota = T.DONE_QUOTA[name]
         leaves = nf.boolwalk(done, T.BOOL_CELLS)
@@ -254,6 +264,46 @@ def rule_c(ctx: Ctx, env: EnvA):
         p = nf.poly(inc) - nf.poly(vg.mk("cell0", sl.td.name, key))
         ctx.ob("C02.c", f"{name}._step:{key}+1", p == nf.Poly.const(1), sl.where, f"{key}' - {key} = {p.show(2)}",
                construct=f"{sl.fi.qualname}:{key}:increment")
+
+
+def done_form(ctx: Ctx, name, sl, done, key):
+    """The completion test has the right comparison: 'nothing available' (count == 0 or <= 0),
+    'everything visited' (sum == size) -- not a strictness/direction variant that is never or
+    always true."""
+    d = nf.strip(done, bool_ctx=True)
+    neg = False
+    while d.op in ("inv", "not"):
+        d, neg = nf.strip(d.args[0], bool_ctx=True), not neg
+    if d.op == "meth" and d.args[1] in ("all", "any"):
+        kind = d.args[1]
+        inner = nf.strip(d.args[0], True)
+        c = nf.cmpnf(inner)
+        if key == "demand_with_depot":
+            ok = neg and kind == "any" and c is not None and c[1] == ">0" and c[0].const_term() == 0 and not c[0].side_atoms(False)
+            why = "done = not any(remaining demand > 0)"
+        elif key == "job_location":
+            ok = (not neg) and kind == "all" and c is not None and c[1] == "==0"
+            why = "done = all(job_location == num_stage)"
+        else:
+            ok = (not neg) and kind == "all" and c is None
+            why = f"done = {key}'.all()"
+        ctx.ob("C02.c", f"{name}._step:done-form", ok, sl.where, why if ok else f"unexpected completion test {vg.show(done, 3)}", construct=f"{sl.fi.qualname}:done:form")
+        return
+    c = nf.cmpnf(d, negate=neg)
+    ok, why = False, f"unexpected completion test {vg.show(done, 3)}"
+    if c is not None:
+        p, op = c
+        atoms_ = p.atoms()
+        counts = [a for a in atoms_ if (a.op == "meth" and a.args[1] in ("sum", "count_nonzero")) or nf._fn(a) in ("torch.sum", "torch.count_nonzero")]
+        sizes = [a for a in atoms_ if a.op == "meth" and a.args[1] == "size"]
+        if len(counts) == 1 and not sizes and p.const_term() == 0:
+            coef = [cf for cf, fs in p.monos() if fs and fs[0][0] is counts[0]][0]
+            ok = (op == "==0") or (op == ">=0" and coef < 0)
+            why = f"done iff count of open entries {'== 0' if op == '==0' else '<= 0'}: {p.show(2)} {op}"
+        elif len(counts) == 1 and len(sizes) == 1:
+            ok = op == "==0" or (op == ">=0" and [cf for cf, fs in p.monos() if fs and fs[0][0] is counts[0]][0] > 0)
+            why = f"done iff visited count == number of nodes: {p.show(2)} {op}"
+    ctx.ob("C02.c", f"{name}._step:done-form", ok, sl.where, why, construct=f"{sl.fi.qualname}:done:form")
 
 
 def rule_d(ctx: Ctx, env: EnvA):
